@@ -190,6 +190,8 @@ class StmtMixin:
         for s, v in self.ev(node.value, st):
             for tgt in node.targets:
                 self.assign(s, tgt, v)
+            if self.top_spec is not None and self.top_spec.ghost_at:
+                self.run_ghost(s, getattr(node, '_site', 'assign'))
             yield s, NORMAL
 
     def ex_AnnAssign(self, node, st):
